@@ -641,6 +641,19 @@ func (in *inliner) helperOfCall(c *ast.CallExpr, recvTypes map[string]string) (*
 		if h := in.helpers[f.Name]; h != nil && h.recvName == "" && len(h.tparams) == 0 && !in.shadow[f.Name] {
 			return h, nil
 		}
+		// I10, inferred type arguments: `h(a)` for a generic helper whose type parameters occur in its signature only — the
+		// body mentions no type parameter, so every instance has the same body
+		if h := in.helpers[f.Name]; h != nil && h.recvName == "" && len(h.tparams) > 0 && !in.shadow[f.Name] {
+			uses := 0
+			for _, tp := range h.tparams {
+				uses += identOccurs(h.decl.Body, tp)
+			}
+			if uses == 0 {
+				d := deepCopy(reflect.ValueOf(h.decl)).Interface().(*ast.FuncDecl)
+				d.Type.TypeParams = nil
+				return classifyHelper(d), nil
+			}
+		}
 	case *ast.IndexExpr:
 		// I10: h[T](…)
 		if id, ok := f.X.(*ast.Ident); ok {
@@ -947,6 +960,31 @@ func (in *inliner) rewriteList(list []ast.Stmt, nres int) []ast.Stmt {
 		switch s := st.(type) {
 		case *ast.ExprStmt:
 			if c := callOf(s.X); c != nil {
+				// a straight helper called for its effect, the results dropped: the body, then the returned expressions
+				// evaluated for their effects (calls) or not at all (anything without a call)
+				if h, recv := in.helperOfCall(c, nil); h != nil && h.kind == hkStraight {
+					if pre, body, ok := in.instantiate(h, recv, c.Args, "", ""); ok {
+						r := body[len(body)-1].(*ast.ReturnStmt)
+						body = body[:len(body)-1]
+						okDrop := true
+						var tail []ast.Stmt
+						for _, e := range r.Results {
+							if ce, isCall := e.(*ast.CallExpr); isCall {
+								tail = append(tail, &ast.ExprStmt{X: ce})
+							} else if hasCall(e) {
+								okDrop = false
+							}
+						}
+						if okDrop {
+							out = append(out, pre...)
+							out = append(out, in.rewriteList(body, nres)...)
+							out = append(out, tail...)
+							in.log = append(in.log, "straight helper (results dropped) "+h.name)
+							continue
+						}
+					}
+					in.failed[h.name] = true
+				}
 				if h, recv := in.helperOfCall(c, nil); h != nil && h.kind == hkProc {
 					if pre, body, ok := in.instantiate(h, recv, c.Args, "", ""); ok {
 						if n := len(body); n > 0 {
